@@ -221,3 +221,23 @@ CHECKS = {
         "technique": "TLA+/PlusCal model checking (TLC) + gate-driven schedule replay + trace validation",
     },
 }
+
+# additions made while strengthening the checks against seeded changes (DESIGN.md 15.8, 15.9)
+EXTRA_NOTES = {
+    "C02": "Functions beyond 64 KiB and constant pools beyond 255 entries (lib/largelib.py) are checked structurally by the harness and by closed-form results: TLC cannot take BytecodeWF through functions of that size in useful time.",
+    "C03": "Functions beyond 64 KiB: optimized vs not optimized vs closed form (lib/largelib.py), jump operands decoded independently of parser.ReadOperands.",
+    "C04": "Further families: list arities 0..4 for every list slot, openers of multi-character tokens x short tails, floods of scanner errors, loop/function nestings.",
+    "C05": "Hostile cells also run through Script.RunContext and a never-cancellable context; repair cells require a failed object to run again after Set.",
+    "C06": "The limits family runs with equal and unequal MaxStringLen/MaxBytesLen.",
+    "C08": "Race reports are kept per script and keyed with the script (string inputs vs string constants); stateful builtin module and format-storm scripts.",
+    "C12": "Special programs: constant pools of 245..520 entries with capturing literals, plain-object importables, a stateful builtin module, second decode of one encoding.",
+    "C13": "Every graph is also compiled under path-alias names with module identity checked through the exported values; isolation matrix importer x import position x referent.",
+    "C14": "Failing programs also run through Clone+ReplaceBuiltinModule and with host errors of the host's own type wrapping the engine's argument errors.",
+    "C16": "The model-depth runs are also validated instruction by instruction against TengoVM.tla; tail loops entered from the last frames are judged by frame arithmetic.",
+    "C20": "Grouping is checked in 30 delimiting statement/expression contexts, not only as the right-hand side of a definition.",
+}
+if "C20" not in CHECKS:
+    CHECKS["C20"] = _C20
+for _k, _v in EXTRA_NOTES.items():
+    CHECKS[_k] = dict(CHECKS[_k])
+    CHECKS[_k]["note"] = CHECKS[_k]["note"] + " " + _v
